@@ -180,6 +180,22 @@ theorem c19_witness : ¬ c19_literal_full 1000 1 := by
   revert this
   decide
 
+/-- the literal statement fails for EVERY capacity and quantum: one message of `cap + q + 1` bytes asked for at
+tick 0 is released whole two ticks later -/
+theorem c19_witness_any (cap q : Int) (hcap : 0 < cap) (hq : 0 < q) : ¬ c19_literal_full cap q := by
+  intro h
+  have hg : Good 0 [(0, cap + q + 1)] := ⟨Int.le_refl _, by omega, trivial⟩
+  have hrun : TB.run cap q ⟨cap, 0⟩ [(0, cap + q + 1)] = [(0 + TBS.ceilDiv (q + 1) q, cap + q + 1)] := by
+    rw [run_sim cap q hq _ _ (good_pos _ 0 hg)]
+    have hadj : TBS.adjust cap q (core ⟨cap, 0⟩) 0 = ⟨cap, 0⟩ := by simp [TBS.adjust, core]
+    have hneg : ¬ (cap - (cap + q + 1) ≥ 0) := by omega
+    have he : -(cap - (cap + q + 1)) = q + 1 := by omega
+    simp only [TBS.run, TBS.take, hadj, hneg, if_false, he]
+  have := h [(0, cap + q + 1)] hg (0 + TBS.ceilDiv (q + 1) q) (0 + TBS.ceilDiv (q + 1) q) (Int.le_refl _)
+  rw [hrun] at this
+  simp [released, TBS.windowSum] at this
+  omega
+
 /-! ## 4. A backlogged sender is not held below the rate -/
 
 /-- back-to-back sender on the executable bucket: each message is requested in the tick in which the previous one
@@ -232,6 +248,121 @@ example : runBL 4 3 ⟨4, 0⟩ 0 [3, 7, 2, 9] = [(0, 3), (2, 7), (3, 2), (6, 9)]
     releasedBy 4 (runBL 4 3 ⟨4, 0⟩ 0 [3, 7, 2, 9]) = 12 := by
   refine ⟨by decide, by decide⟩
 
+/-! ## 5. Nanosecond form (what the harness monitor evaluates) -/
+
+/-- requests `(ns since the bucket was made, bytes)` → `(release time in ns, bytes)`, as `Bucket.Wait` behaves on an
+exact clock: the caller proceeds `wait` ns after asking -/
+def runNs (p : TB.P) : TB.B → List (Int × Int) → List (Int × Int)
+  | _, [] => []
+  | b, (now, c) :: r => (now + (TB.takeNs p b now c).2, c) :: runNs p (TB.takeNs p b now c).1 r
+
+def toTicks (fi : Int) (l : List (Int × Int)) : List (Int × Int) := l.map (fun x => (x.1 / fi, x.2))
+
+theorem takeNs_tick (p : TB.P) (hfi : 0 < p.fi) (b : TB.B) (now c : Int) (hn : 0 ≤ now) :
+    (TB.takeNs p b now c).1 = (TB.take p.cap p.q b (now / p.fi) c).1 ∧
+    (now + (TB.takeNs p b now c).2) / p.fi = TB.relTick (now / p.fi) (TB.take p.cap p.q b (now / p.fi) c).2 := by
+  unfold TB.takeNs
+  simp only [gen_currentTick now p.fi hn]
+  cases hr : TB.take p.cap p.q b (now / p.fi) c with
+  | mk b' rel =>
+    cases rel with
+    | now => simp [TB.relTick]
+    | «at» e =>
+      simp only [TB.relTick, gen_endTime, true_and]
+      have : now + (e * p.fi - now) = e * p.fi := by omega
+      rw [this, Int.mul_ediv_cancel _ (Int.ne_of_gt hfi)]
+
+theorem runNs_ticks (p : TB.P) (hfi : 0 < p.fi) : ∀ (reqs : List (Int × Int)) (b : TB.B), (∀ x ∈ reqs, 0 ≤ x.1) →
+    toTicks p.fi (runNs p b reqs) = TB.run p.cap p.q b (toTicks p.fi reqs) := by
+  intro reqs
+  induction reqs with
+  | nil => intro b _; rfl
+  | cons rc rest ih =>
+    obtain ⟨now, c⟩ := rc
+    intro b h
+    obtain ⟨h1, h2⟩ := takeNs_tick p hfi b now c (h (now, c) (by simp))
+    simp only [runNs, toTicks, List.map_cons, TB.run]
+    rw [h2, h1]
+    congr 1
+    exact ih _ (fun x hx => h x (by simp [hx]))
+
+theorem good_ticks (fi : Int) (hfi : 0 < fi) : ∀ (reqs : List (Int × Int)) (last : Int), Good last reqs →
+    Good (last / fi) (toTicks fi reqs) := by
+  intro reqs
+  induction reqs with
+  | nil => intro _ _; trivial
+  | cons rc rest ih =>
+    obtain ⟨t, c⟩ := rc
+    intro last hg
+    exact ⟨Int.ediv_le_ediv hfi hg.1, hg.2.1, ih t hg.2.2⟩
+
+theorem window_ticks (fi : Int) (hfi : 0 < fi) (A B : Int) : ∀ l : List (Int × Int), (∀ x ∈ l, 0 ≤ x.2) →
+    released A B l ≤ released (A / fi) (B / fi) (toTicks fi l) := by
+  intro l
+  induction l with
+  | nil => intro _; simp [released, TBS.windowSum, toTicks]
+  | cons x rest ih =>
+    obtain ⟨r, c⟩ := x
+    intro h
+    have hc : 0 ≤ c := h (r, c) (by simp)
+    have := ih (fun x hx => h x (by simp [hx]))
+    simp only [released, toTicks, List.map_cons, TBS.windowSum] at this ⊢
+    by_cases hin : A ≤ r ∧ r ≤ B
+    · have h2 : A / fi ≤ r / fi ∧ r / fi ≤ B / fi := ⟨Int.ediv_le_ediv hfi hin.1, Int.ediv_le_ediv hfi hin.2⟩
+      rw [if_pos hin, if_pos h2]; omega
+    · rw [if_neg hin]; split <;> omega
+
+theorem runNs_counts (p : TB.P) : ∀ (reqs : List (Int × Int)) (b : TB.B), (∀ x ∈ reqs, 0 < x.2) → ∀ x ∈ runNs p b reqs, 0 ≤ x.2 := by
+  intro reqs
+  induction reqs with
+  | nil => intro b _ x hx; simp [runNs] at hx
+  | cons rc rest ih =>
+    obtain ⟨now, c⟩ := rc
+    intro b h x hx
+    simp only [runNs, List.mem_cons] at hx
+    rcases hx with hx | hx
+    · subst hx; exact Int.le_of_lt (h (now, c) (by simp))
+    · exact ih _ (fun y hy => h y (by simp [hy])) x hx
+
+/-- **C19 (upper bound, on the clock).** Requests arrive at non-decreasing times (ns since the valve was made), each
+for at most `M` bytes; every caller proceeds exactly when `Bucket.Wait` lets it.  Then for ANY two instants `A ≤ B`
+the bytes let through in `[A, B]` are at most `max(cap, M + q − 1) + q·(⌊B/fi⌋ − ⌊A/fi⌋)` — this is, literally, the
+quantity the harness monitor compares every pair of event instants with. -/
+theorem c19_upper_ns (p : TB.P) (hcap : 0 < p.cap) (hq : 0 < p.q) (hfi : 0 < p.fi) (M A B : Int) (hAB : A ≤ B)
+    (reqs : List (Int × Int)) (hg : Good 0 reqs) (hM : ∀ x ∈ reqs, x.2 ≤ M) :
+    released A B (runNs p (TB.init p) reqs) ≤ max p.cap (M + p.q - 1) + (B / p.fi - A / p.fi) * p.q := by
+  have hpos := good_pos reqs 0 hg
+  have hnn : ∀ x ∈ reqs, 0 ≤ x.1 := by
+    have : ∀ (l : List (Int × Int)) (last : Int), 0 ≤ last → Good last l → ∀ x ∈ l, 0 ≤ x.1 := by
+      intro l
+      induction l with
+      | nil => intro _ _ _ x hx; simp at hx
+      | cons rc rest ih =>
+        obtain ⟨t, c⟩ := rc
+        intro last hl hg x hx
+        simp only [List.mem_cons] at hx
+        rcases hx with hx | hx
+        · subst hx; exact Int.le_trans hl hg.1
+        · exact ih t (Int.le_trans hl hg.1) hg.2.2 x hx
+    exact this reqs 0 (Int.le_refl _) hg
+  have h1 := window_ticks p.fi hfi A B (runNs p (TB.init p) reqs) (runNs_counts p reqs _ hpos)
+  rw [runNs_ticks p hfi reqs _ hnn] at h1
+  have hg' := good_ticks p.fi hfi reqs 0 hg
+  have h0 : (0 : Int) / p.fi = 0 := Int.zero_ediv _
+  rw [h0] at hg'
+  have hM' : ∀ x ∈ toTicks p.fi reqs, x.2 ≤ M := by
+    intro x hx
+    simp only [toTicks, List.mem_map] at hx
+    obtain ⟨y, hy, rfl⟩ := hx
+    exact hM y hy
+  have h2 := c19_upper p.cap p.q M hcap hq (A / p.fi) (B / p.fi) (Int.ediv_le_ediv hfi hAB) (toTicks p.fi reqs) hg' hM'
+  exact Int.le_trans h1 h2
+
+/-- non-vacuity: rate 1000 B/s (`q = 1`, `fi` = 1 ms): a 16000-byte record asked for at 0 ns and 100 bytes asked
+for 5 ms later are let through at 15 s and 15.1 s -/
+example : runNs ⟨1000, 1, 1000000⟩ (TB.init ⟨1000, 1, 1000000⟩) [(0, 16000), (5000000, 100)] =
+    [(15000000000, 16000), (15100000000, 100)] := by decide
+
 end C19
 
 #print axioms C19.c19_upper
@@ -239,3 +370,5 @@ end C19
 #print axioms C19.c19_witness
 #print axioms C19.c19_not_starved
 #print axioms C19.gen_structure
+#print axioms C19.c19_upper_ns
+#print axioms C19.c19_witness_any
